@@ -151,6 +151,16 @@ def _rot(lat, lon):
                      [0.0, math.cos(la), math.sin(la)]])
 
 
+def _expected_cov(d1, z, e, n, h, Vin):
+    (lat, lon), (lat2, lon2, h2), _ = _stepwise(d1, z, e, n, h)
+    p = GDA if d1 == "94to2020" else tuple(-v for v in GDA)
+    R1, R2 = _rot(lat, lon), _rot(lat2, lon2)
+    X = closed_form(lat, lon, 0.0 if h is None else h, A_GRS, INVF_GRS)
+    Vc = R1 @ Vin @ R1.T
+    W = H.propagate(p, GDA_SD, X, Vc)
+    return R2.T @ W @ R2
+
+
 def check_covariance(case):
     d1 = case["dir"]
     z, e, n = case["zone"], case["east"], case["north"]
@@ -170,13 +180,7 @@ def check_covariance(case):
     without = _call(d1, case, z, e, n, vcv=None)
     if without[:4] != got[:4]:
         raise Fail("supplying a covariance changed the transformed coordinates", expected=without[:4], observed=got[:4])
-    (lat, lon), (lat2, lon2, h2), _ = _stepwise(d1, z, e, n, h)
-    p = GDA if d1 == "94to2020" else tuple(-v for v in GDA)
-    R1, R2 = _rot(lat, lon), _rot(lat2, lon2)
-    X = closed_form(lat, lon, 0.0 if h is None else h, A_GRS, INVF_GRS)
-    Vc = R1 @ Vin @ R1.T
-    W = H.propagate(p, GDA_SD, X, Vc)
-    want = R2.T @ W @ R2
+    want = _expected_cov(d1, z, e, n, h, Vin)
     scale = TR.fro(want) + 1e-300
     rel = TR.fro(out - want) / scale
     metric("cov_rel_err", rel)
@@ -188,6 +192,19 @@ def check_covariance(case):
     lam = float(np.linalg.eigvalsh((out + out.T) / 2.0).min())
     if not lam >= -1e-12 * scale:
         raise Fail("returned local covariance is not positive semi-definite", observed={"vcv": out, "min_eig": lam})
+    # the way back: the tuple the first call returned - position, height and the covariance as the library hands it out (symmetric
+    # to rounding only) - goes into the other direction, which must carry THAT covariance through in the same way
+    d2 = _other(d1)
+    h_back = got[3] if h is not None else None
+    back = _call(d2, case, got[0], got[1], got[2], h=h_back, vcv=out)
+    if back[4] is None or getattr(back[4], "shape", None) != (3, 3):
+        raise Fail("the covariance returned by one direction, fed into the other, returned no 3x3 covariance", observed=repr(back[4]))
+    want2 = _expected_cov(d2, got[0], got[1], got[2], h_back, np.array(out, dtype=float))
+    rel2 = TR.fro(np.asarray(back[4], dtype=float) - want2) / (TR.fro(want2) + 1e-300)
+    metric("chained_cov_rel_err", rel2)
+    if not rel2 <= 1e-9:
+        raise Fail("a covariance returned by transform_mga* and fed into the other direction is not carried through the transformation "
+                   "(relative Frobenius > 1e-9)", expected=want2, observed={"vcv": back[4], "rel": rel2}, bucket="chained covariance")
 
 
 # ------------------------------------------------------------------------------------------------ generators
